@@ -124,6 +124,10 @@ func TestVP_C03_Mesh(t *testing.T) {
 				}
 			case "shell":
 				got, err := vpC07Shell(w, seed, []int{n}, 10*time.Second)
+				if vpC07Starved.Load() && (err != nil || !bytes.Equal(got, vpPattern(seed, 0, n))) {
+					st.Count("shell-probes-not-judged(process starved of CPU)", 1)
+					rt.Skip("process starved during a shell probe")
+				}
 				if err != nil || !bytes.Equal(got, vpPattern(seed, 0, n)) {
 					fail(fmt.Sprintf("%v; %s", err, vpFirstDiff(seed, got, n)))
 				}
